@@ -371,6 +371,42 @@ def replay_fractional(p):
     return bad, f"request for {p['count']} samples {how}: antenna clock {clocks[0]!r}, stream clocks {clocks[1:]!r}"
 
 
+def job_reseed(asc, N):
+    """the stream's generator is re-assigned after the noise source was added (a replay with a fresh seeded generator):
+    from then on the noise is the NEW generator's sequence -- the source is bound to the stream, not to the generator
+    object that happened to be there when add_noise was called"""
+    recs = []
+    P, pre = params()
+    dt = 1 / P['sr'].t
+    tag = f"C10:reseed:{(asc, N)}"
+    with volt_patches(proxy=proxy()):
+        s = mk_stream(P, asc, None, seed=42)
+        first = list(s.get_samples(2))
+        s.rng = GenStub(77)
+        s.set_time(P['t0'])
+        got = list(s.get_samples(N))
+    pairs = []
+    for k in range(N):
+        pairs.append((cparts(got[k]), spec_sample(P, asc, None, P['t0'].t + RV(k) * dt, k, seed=77)))
+    for k in range(2):
+        pairs.append((cparts(first[k]), spec_sample(P, asc, None, P['t0'].t + RV(k) * dt, k, seed=42)))
+    decide(tag, pairs, recs, 'C10:reseed', 'after the stream was given a new generator its noise is not that generator\'s sequence', dict(fn='reseed', asc=asc, N=N), pre)
+    return recs
+
+
+def replay_reseed(p):
+    from setigen.voltage import data_stream as ds
+    s = ds.DataStream(sample_rate=1000.0, fch1=100.0, ascending=p['asc'], t_start=2.5, seed=9)
+    s.add_noise(0.5, 2.0)
+    s.get_samples(7)
+    s.rng = np.random.default_rng(77)
+    s.set_time(2.5)
+    got = np.array(s.get_samples(p['N']))
+    want = 0.5 + 2.0 * np.random.default_rng(77).standard_normal(p['N'])
+    bad = not np.allclose(got, want, rtol=1e-12, atol=1e-12)
+    return bad, f"stream re-seeded with default_rng(77): samples {got[:2].tolist()}, that generator gives {want[:2].tolist()}"
+
+
 def job_clock_resync(num_pols, op):
     """one clock operation from an ARBITRARY pre-state (stream clocks and flags differing from the antenna's, as after a
     request that failed part-way or after driving a stream directly): afterwards every clock is the requested instant,
@@ -572,7 +608,7 @@ def replay_antenna(p):
     return bool(msgs), '; '.join(msgs) or 'antenna ok'
 
 
-REPLAYS = {'stream': replay_stream, 'antenna': replay_antenna, 'fractional': replay_fractional, 'resync': replay_resync, 'units': replay_units}
+REPLAYS = {'stream': replay_stream, 'antenna': replay_antenna, 'fractional': replay_fractional, 'resync': replay_resync, 'units': replay_units, 'reseed': replay_reseed}
 
 
 def main():
@@ -600,6 +636,7 @@ def main():
             jobs.append(('job_antenna', (num_pols, asc, 3 if not ck.thorough else 4)))
         jobs.append(('job_antenna', (2, asc, 2, True)))
     for asc in (True, False):
+        jobs.append(('job_reseed', (asc, 3)))
         jobs.append(('job_units', (asc, 2 if asc else 1)))
     for num_pols in (1, 2):
         for op in ('set_time', 'add_time', 'reset_start'):
